@@ -43,9 +43,9 @@ type putSite struct {
 
 // writeCallees: callee id -> (index of key argument, index of mode argument)
 var writeCallees = map[string][2]int{
-	"pkg/storage.Store.Put":            {1, 3},
-	"pkg/storage.StoreCRC.PutCRC":      {1, 3},
-	"pkg/storage.MultiPut":             {2, 4},
+	"pkg/storage.Store.Put":             {1, 3},
+	"pkg/storage.StoreCRC.PutCRC":       {1, 3},
+	"pkg/storage.MultiPut":              {2, 4},
 	"pkg/core.metaObject.writeMetadata": {0, 1},
 }
 
